@@ -106,7 +106,7 @@ class SymEval:
             return f'(Enc {key} n{self.nonces} {data})'
         if ch == ['self', 'props', 'decrypt'] and len(a) == 2:
             data, key = self.term(a[0]), self.term(a[1])
-            tolerated = any('DecryptionError' in s for s in self.try_catches)
+            tolerated = any('DecryptionError' in name for names in self.try_catches for name in names)
             self.decrypts.append((data, key, tolerated))
             return f'(PLAINTEXT_OF {data})'
         if ch == ['self', 'props', 'hash_digest'] and len(a) == 1:
